@@ -2,6 +2,7 @@ package distribution
 
 import (
 	"bytes"
+	"math/big"
 	"reflect"
 
 	sdk "github.com/cosmos/cosmos-sdk/types"
@@ -143,8 +144,14 @@ func (p Precompile) EmitWithdrawValidatorCommissionEvent(ctx sdk.Context, stateD
 	}
 
 	// Prepare the event data
+	// NOTE: an accumulated commission below one unit is kept as a remainder by the distribution
+	// module and the message succeeds without paying anything out: the withdrawn coins are empty.
+	commission := new(big.Int)
+	if len(coins) > 0 {
+		commission = coins[0].Amount.BigInt()
+	}
 	var b bytes.Buffer
-	b.Write(cmn.PackNum(reflect.ValueOf(coins[0].Amount.BigInt())))
+	b.Write(cmn.PackNum(reflect.ValueOf(commission)))
 
 	stateDB.AddLog(&ethtypes.Log{
 		Address:     p.Address(),
